@@ -565,7 +565,10 @@ impl std::fmt::Write for LimitedWriter {
 }
 
 /// Display of `t` through failing writers, then again into a String: the final text must equal `expect`.
-pub fn display_survives_failing_writer<T: std::fmt::Display>(t: &T, expect: &str) -> Result<(), String> {
+/// `same_value(text)`: does `text` parse back to a value equal to `t`?  (The round-trip properties are about
+/// what the printed form *means*; a formatter flag may legitimately change its spelling - e.g. `{:#}` printing
+/// `a || b` - as long as the result, padding removed, still reads as the same value.)
+pub fn display_survives_failing_writer<T: std::fmt::Display>(t: &T, expect: &str, same_value: &dyn Fn(&str) -> bool) -> Result<(), String> {
     use std::fmt::Write;
     for cap in [0usize, 1, expect.len() / 2, expect.len().saturating_sub(1)] {
         let mut w = LimitedWriter { cap, got: String::new() };
@@ -581,7 +584,8 @@ pub fn display_survives_failing_writer<T: std::fmt::Display>(t: &T, expect: &str
             return Err(format!("after a failed write into a {}-byte sink the next to_string() gives {:?} instead of {:?}", cap, again, expect));
         }
     }
-    // width / alignment / sign / zero flags may pad the whole text with blanks, nothing else
+    // width / alignment / sign / zero / alternate flags: the output, blank padding removed, is either the plain
+    // text or another spelling that parses back to the same value
     for (spec, got) in [
         (">1", format!("{:>1}", t)),
         (">40", format!("{:>40}", t)),
@@ -591,8 +595,9 @@ pub fn display_survives_failing_writer<T: std::fmt::Display>(t: &T, expect: &str
         ("+", format!("{:+}", t)),
         ("#", format!("{:#}", t)),
     ] {
-        if got.trim_matches(' ') != expect {
-            return Err(format!("format!(\"{{:{}}}\") gives {:?}; apart from blank padding it should be {:?}", spec, got, expect));
+        let trimmed = got.trim_matches(' ');
+        if trimmed != expect && !same_value(trimmed) {
+            return Err(format!("format!(\"{{:{}}}\") gives {:?}: with the blank padding removed this is neither the plain text {:?} nor a text that parses back to the same value", spec, got, expect));
         }
     }
     Ok(())
